@@ -20,6 +20,29 @@ RULES = {
 NONE = ("variant", OPTION, "None", ())
 
 
+def reports_nothing(p):
+    """every MemberChangedHookMsg built on this path carries a diff list that starts empty and received no push on the path"""
+    found = False
+    for x in walk(p.ret):
+        if x[0] == "struct" and x[1].endswith("MemberChangedHookMsg"):
+            found = True
+            d = dict(x[2]).get("diffs")
+            n = 0
+            while isinstance(d, tuple) and d and d[0] == "loopvar" and n < 10:
+                n += 1
+                lk, var, k = d[1], d[2], d[3]
+                ent = [e for e in p.effects if e.kind == "loop_enter" and e.name == lk]
+                stp = [e for e in p.effects if e.kind == "loop_step" and e.name == lk]
+                if not ent or var not in ent[0].value:
+                    return False
+                if k >= 1 and (not stp or stp[0].value.get(var) != ("loopvar", lk, var, 0)):
+                    return False
+                d = ent[0].value[var]
+            if d != ("list", ()):
+                return False
+    return found
+
+
 def run(ctx):
     ctx.rule_texts.update(RULES)
     ctx.assumptions += ["A-ATOMIC", "A-PRIMS: cw_controllers::Admin::assert_admin(deps, a) errs unless a is the stored admin (and "
@@ -90,7 +113,10 @@ def run(ctx):
                     if not mw and not hooks:
                         continue
                     if crate == "cw4_group" and variant != "UpdateMembers" and not mw:
-                        ctx.ob("R14.4", key + "/no spurious notification", not hooks, detail="member-change notification without member change")
+                        # a notification on a path that changes no member is truthful only if it carries the empty diff list
+                        # (update_members called by another message with entries that turn out to change nothing)
+                        ctx.ob("R14.4", key + "/no spurious notification", not hooks or reports_nothing(p),
+                               detail="member-change notification without member change")
                         continue
                     n_notify += 1
                     good = len(hooks) == 1
